@@ -212,11 +212,11 @@ def rule_kept_in_place(check):
                         if h_ is None or h_.body is None or h_ is fo:
                             continue
                         for y in [y for y in hir.walk(h_.body) if hir.is_call(y) and (hir.callee_name(y) or y.get("method")) in hoisters]:
-                            conds_ = [c_ for c_ in h_.conds_at(y) if c_["t"] == "bool"]
+                            conds_ = [c_ for c_ in h_.conds_at(y) if c_["t"] in ("bool", "pat") and not (c_["t"] == "pat" and c_["v"] and (c_["pat"].get("k") == "Wild" or c_["pat"].get("k") == "Binding" and "sub" not in c_["pat"]))]
                             if not conds_:
                                 continue  # hoisted on every path through here
                             txt = " && ".join(hir.cond_str(c_) for c_ in conds_)
-                            lit_test = any(hir.is_call(z) and "lit" in ((hir.callee_name(z) or z.get("method") or "").lower()) for c_ in conds_ for z in hir.walk(c_["e"]))
+                            lit_test = any(hir.is_call(z) and "lit" in ((hir.callee_name(z) or z.get("method") or "").lower()) for c_ in conds_ for z in hir.walk(c_.get("e") or c_.get("guard") or {}))
                             stay_sites.append((y, txt, lit_test))
                     if stay_sites:
                         okb = all(lt for _, _, lt in stay_sites)
@@ -1458,6 +1458,19 @@ def rule_paren_wrap(check):
     conds = [n for g_ in prog.flat(oc, 2) for n in hir.walk(g_.body) if n.get("k") == "Struct" and (n["res"].get("path") or "").endswith("CondExpr")]
     pushes = [n for n in hir.calls_in(oc.body, name="push")]
     ok = len(conds) == 1 and any(any(hir.local_of(x) for x in hir.walk(hir.call_args(p)[1])) and (hir.place(hir.call_args(p)[0]) or "").endswith(".assignments") for p in pushes)
+    if not ok and len(conds) == 1:
+        # however the element list of the sequence is put together: the conditional is one of its elements
+        from . import seqform as SQ
+
+        pv_ = Prov(prog)
+        for sq in [n for n in hir.walk(oc.body) if n.get("k") == "Struct" and (n["res"].get("path") or "").endswith("SeqExpr")]:
+            ex = [x["e"] for x in sq["fields"] if x["name"] == "exprs"]
+            items = SQ.seq_of(oc, ex[0], upto=sq["id"]) if ex else []
+            for it in items:
+                if it[0] == "one":
+                    lo_ = pv_.origins(oc, it[1])
+                    if lo_ and all(r[0] == "ctor" and r[1].endswith("Expr::Cond") for r, p_ in lo_):
+                        ok = True
     check.expect(ok, R, R + "/cond-in-seq", hir.loc(oc.rec), "the null-guard conditional is appended to the parenthesised sequence", "the injected conditional is not part of the parenthesised sequence")
 
 
@@ -1653,6 +1666,15 @@ def rule_optchain_lowering(check):
         # every assignment, front to back: iter_mut().map(take) / drain(..).map(Box::new) / into_iter().map(..)
         full_drain = chain[-1:] == ["drain"] and any(x.get("k") == "MethodCall" and x["method"] == "drain" and _full_forward_drain(f, x) for x in hir.walk(ex))
         ok = chain[:2] == ["collect", "map"] and (chain[2:] in (["iter_mut"], ["into_iter"]) or (chain[2:] == ["drain"] and full_drain)) and (hir.place(y) or "").endswith(".assignments")
+    if not ok and len(seqs) == 1:
+        # the same, read off the value of `exprs` however it is put together (push + collect, chain(once(..)), ..)
+        from . import seqform as SQ
+
+        ex = [x["e"] for x in seqs[0]["fields"] if x["name"] == "exprs"][0]
+        items = SQ.seq_of(f, ex, upto=seqs[0]["id"])
+        if len(items) == 2 and items[0][0] == "all" and (items[0][1] or "").endswith(".assignments") and items[1][0] == "one":
+            lo_ = pv.origins(f, items[1][1])
+            ok = bool(lo_) and all(r[0] == "ctor" and r[1].endswith("Expr::Cond") for r, p_ in lo_)
     check.expect(ok, R, R + "/sequence", hir.loc(f.rec), "sequence = assignments in order, conditional last", "the lowered sequence is not [assignments.., conditional] in order")
     # guards: nothing is lowered unless an optional part was extracted
     nm = [x for x in hir.calls_in(f.body, name="not_modified")]
